@@ -214,3 +214,89 @@ func TestC06_Presence(t *testing.T) {
 			c.Done(influence, src+"|"+k.name)
 		})
 }
+
+// TestC06_Keys: the secret selects - it is the key of an index operation, in its own type
+// or in a type that is converted to the collection's key type first (a digit string
+// indexing a list or tuple, a number indexing a map).
+func TestC06_Keys(t *testing.T) {
+	hx.Run(t, "C06", "Keys", 8000,
+		"directed family: unmarked list / tuple / map / set-derived collections with pairwise different elements; the marked secret `s` is used as the key of an index operation, directly (`lst[s]`), computed (`lst[\"${s}\"]`, `lst[s + 0]`, `m[upper(s)]`), nested (`[lst[s]]`, `{k = m[s]}`, `lst[s] == \"x\"`, a conditional on the element, a for expression over the selected element's collection) and with every key representation: number / digit string for lists and tuples, string / number for maps whose keys are digit strings; evaluated with three contents selecting different elements; oracle (non-interference): any two error-free runs whose results differ after deep unmarking must both carry the mark; non-trivial = some pair differs with a key that needs conversion; distinct by (source, key kind)",
+		func(c *hx.Case) {
+			t := c.T
+			colls := map[string]cty.Value{
+				"lst": cty.ListVal([]cty.Value{cty.StringVal("x"), cty.StringVal("y"), cty.StringVal("z")}),
+				"tup": cty.TupleVal([]cty.Value{cty.StringVal("x"), cty.NumberIntVal(5), cty.True}),
+				"m":   cty.MapVal(map[string]cty.Value{"0": cty.StringVal("m0"), "1": cty.StringVal("m1"), "2": cty.StringVal("m2")}),
+				"ll":  cty.ListVal([]cty.Value{cty.ListVal([]cty.Value{cty.StringVal("p")}), cty.ListVal([]cty.Value{cty.StringVal("q"), cty.StringVal("r")}), cty.ListValEmpty(cty.String)}),
+			}
+			coll := rapid.SampledFrom([]string{"lst", "tup", "m", "ll"}).Draw(t, "coll")
+			keyKind := rapid.SampledFrom([]string{"number", "string"}).Draw(t, "keykind")
+			keyForms := []string{"s", "(s)"}
+			if keyKind == "string" {
+				keyForms = append(keyForms, `"${s}"`, `upper(s)`, `c1 ? s : "0"`)
+			} else {
+				keyForms = append(keyForms, `s + 0`, `add(s, 0)`, `c1 ? s : 0`, `"${s}"`)
+			}
+			key := rapid.SampledFrom(keyForms).Draw(t, "keyform")
+			sel := fmt.Sprintf("%s[%s]", coll, key)
+			wraps := []string{"%s", "[%s]", "{k = %s}", "nullok(%s)", "(%s)", "[for v in [%s] : v]"}
+			switch coll {
+			case "lst", "m":
+				wraps = append(wraps, `%s == "x"`, `"<${%s}>"`, `%s == "y" ? n1 : n2`, `upper(%s)`)
+			case "ll":
+				wraps = append(wraps, `len(%s)`, `[for v in %s : v]`, `%s[*]`, `cat(%s...)`)
+			}
+			src := fmt.Sprintf(rapid.SampledFrom(wraps).Draw(t, "wrap"), sel)
+			c.Set("source", src)
+			c.Class("key_" + keyKind + "_on_" + coll)
+			expr, diags := parseExprSrc(src)
+			if diags.HasErrors() {
+				c.Failf("harness-generator", "directed source does not parse: %s", diagStr(diags))
+			}
+			needsConversion := (keyKind == "string") != (coll == "m")
+			if needsConversion {
+				c.Class("key_needs_conversion")
+			}
+			type run struct {
+				v  cty.Value
+				ok bool
+			}
+			var runs []run
+			var desc []string
+			for i := 0; i < 3; i++ {
+				var content cty.Value
+				if keyKind == "number" {
+					content = cty.NumberIntVal(int64(i))
+				} else {
+					content = cty.StringVal(fmt.Sprint(i))
+				}
+				desc = append(desc, content.GoString())
+				vars := map[string]cty.Value{"s": content.Mark(secretMark), "n1": cty.NumberIntVal(7), "n2": cty.NumberIntVal(8), "c1": cty.True}
+				for n, v := range colls {
+					vars[n] = v
+				}
+				ctx := &hcl.EvalContext{Functions: ctyFuncs, Variables: vars}
+				var v cty.Value
+				var d hcl.Diagnostics
+				c.Guard("Value", func() { v, d = expr.Value(ctx) })
+				runs = append(runs, run{v, !d.HasErrors()})
+			}
+			influence := false
+			for i := 0; i < len(runs); i++ {
+				for j := i + 1; j < len(runs); j++ {
+					a, b := runs[i], runs[j]
+					if !a.ok || !b.ok || unmarkedDeep(a.v).RawEquals(unmarkedDeep(b.v)) {
+						continue
+					}
+					influence = true
+					if !carriesMark(a.v, secretMark) || !carriesMark(b.v, secretMark) {
+						c.Failf("mark-lost", "%s with the marked key `s` = %s gives %#v, with `s` = %s gives %#v: the result depends on it but the mark is not carried by both results", src, desc[i], a.v, desc[j], b.v)
+					}
+				}
+			}
+			if influence {
+				c.Class("influence")
+			}
+			c.Done(influence && needsConversion, src+"|"+keyKind)
+		})
+}
